@@ -111,10 +111,12 @@ class Check:
         self.known = Known()
         self.programs = 0
         self.replay_n = 0
+        self.reduced = []      # harnesses completed only at a reduced bound
+        self.not_covered = []  # harnesses that did not complete at the smallest bound
 
     # ---- running the engine on a package of /repo (or a scratch module) with overlay harness files ----
     def run_pkg(self, moddir, pkg_pattern, pkgdir, pkgname, harness_files, regex, params=None, workers=16, wall=None,
-                max_models=20, extra_flags=(), label=None, feas_ms=None, oblig_ms=None, expect_covers=True):
+                max_models=20, extra_flags=(), label=None, feas_ms=None, oblig_ms=None, expect_covers=True, gen=None, max_paths=None, soft_trunc=False):
         gose = ensure_gose()
         params = params or {}
         rts = rt_files(pkgname, self.scratch)
@@ -126,7 +128,7 @@ class Check:
             overlays[v] = hf
             test_overlays[v] = hf
         out = self.scratch.path("res_%d.json" % len(self.runs))
-        cmd = [gose, "run", "-dir", moddir, "-pkg", pkg_pattern, "-tags", "verif", "-harness", regex, "-workers", str(workers), "-models", "-out", out]
+        cmd = [gose, "run", "-dir", moddir, "-pkg", pkg_pattern, "-tags", "verif", "-harness", regex, "-workers", str(workers), "-models", str(max(1, max_models)), "-out", out]
         for k, v in overlays.items():
             cmd += ["-overlay", "%s=%s" % (k, v)]
         for k, v in params.items():
@@ -137,6 +139,8 @@ class Check:
             cmd += ["-feas-ms", str(feas_ms)]
         if oblig_ms:
             cmd += ["-oblig-ms", str(oblig_ms)]
+        if max_paths:
+            cmd += ["-max-paths", str(max_paths)]
         cmd += list(extra_flags)
         rc, txt = sh(cmd, cwd=VERIF)
         sys.stdout.write(txt)
@@ -146,11 +150,17 @@ class Check:
         rep = json.load(open(out))
         if not rep["Harnesses"]:
             self.problems.append("no harness matched %s in %s" % (regex, pkg_pattern))
-        ctx = dict(moddir=moddir, pkg_pattern=pkg_pattern, pkgdir=pkgdir, pkgname=pkgname, test_overlays=test_overlays, params=params, label=label or pkg_pattern)
+        ctx = dict(moddir=moddir, pkg_pattern=pkg_pattern, pkgdir=pkgdir, pkgname=pkgname, test_overlays=test_overlays, params=params, label=label or pkg_pattern, gen=gen)
+        rep["_truncated"] = []
         for h in rep["Harnesses"]:
             h["_ctx"] = ctx
+            probs = h.get("Problems") or []
+            if soft_trunc and h.get("Truncated") and all(("truncated" in pr or "wall budget" in pr) for pr in probs) and not (h.get("Unknowns") or []):
+                rep["_truncated"].append(h["Name"])
+                h["Models"] = []
+                continue
             self.runs.append(h)
-            for pr in h.get("Problems") or []:
+            for pr in probs:
                 self.problems.append("%s: %s" % (h["Name"], pr.split("\n")[0][:300]))
             for u in h.get("Unknowns") or []:
                 self.problems.append("%s: solver unknown on %s" % (h["Name"], u))
@@ -257,15 +267,37 @@ class Check:
         shutil.rmtree(d, ignore_errors=True)
         os.makedirs(os.path.join(d, "cases"))
         json.dump(case_json(h["Name"], v.get("inputs") or [], ctx["params"]), open(os.path.join(d, "cases", "cex.case.json"), "w"))
-        repl = {}
-        for virt, real in ctx["test_overlays"].items():
-            dst = os.path.join(d, "files", os.path.basename(real))
-            os.makedirs(os.path.dirname(dst), exist_ok=True)
-            shutil.copy(real, dst)
-            repl[virt] = dst
-        json.dump({"Replace": repl}, open(os.path.join(d, "overlay.json"), "w"))
-        json.dump({"property": self.prop, "key": key, "violation": v, "native": out, "moddir": ctx["moddir"], "pkg": ctx["pkg_pattern"]}, open(os.path.join(d, "cex.json"), "w"), indent=1)
-        open(os.path.join(d, "replay.sh"), "w").write("""#!/bin/sh
+        if ctx.get("gen"):
+            g = ctx["gen"]
+            os.makedirs(os.path.join(d, "schemas"))
+            os.makedirs(os.path.join(d, "files"))
+            names = []
+            for sp in g["schemas"]:
+                shutil.copy(sp, os.path.join(d, "schemas", os.path.basename(sp)))
+                names.append(os.path.basename(sp))
+            for virt, real in ctx["test_overlays"].items():
+                if os.path.basename(real) in g["libs"]:
+                    shutil.copy(real, os.path.join(d, "files", os.path.basename(real)))
+            meta = dict(g)
+            meta["schema_files"] = names
+            del meta["schemas"]
+            json.dump(meta, open(os.path.join(d, "meta.json"), "w"), indent=1)
+            json.dump({"property": self.prop, "key": key, "violation": v, "native": out}, open(os.path.join(d, "cex.json"), "w"), indent=1)
+            open(os.path.join(d, "replay.sh"), "w").write("""#!/bin/sh
+# regenerates the code from /repo's current tree and replays the counterexample natively; exits 1 if it reproduces
+D="$(cd "$(dirname "$0")" && pwd)"
+exec %s/check --replay-gen "$D"
+""" % VERIF)
+        else:
+            repl = {}
+            for virt, real in ctx["test_overlays"].items():
+                dst = os.path.join(d, "files", os.path.basename(real))
+                os.makedirs(os.path.dirname(dst), exist_ok=True)
+                shutil.copy(real, dst)
+                repl[virt] = dst
+            json.dump({"Replace": repl}, open(os.path.join(d, "overlay.json"), "w"))
+            json.dump({"property": self.prop, "key": key, "violation": v, "native": out, "moddir": ctx["moddir"], "pkg": ctx["pkg_pattern"]}, open(os.path.join(d, "cex.json"), "w"), indent=1)
+            open(os.path.join(d, "replay.sh"), "w").write("""#!/bin/sh
 # replays the counterexample natively against the current tree; exits 1 if the violation reproduces
 D="$(cd "$(dirname "$0")" && pwd)"
 export PATH=%s:$PATH GOTOOLCHAIN=local GOFLAGS=-mod=mod GOPROXY=off
@@ -313,6 +345,7 @@ echo "not reproduced"; exit 0
             "solvers": ["z3 4.8.12 (primary, one z3 -in per worker, push/pop)"],
             "stubs": sorted(stubs), "inconclusive_reasons": self.problems[:40],
             "known_findings_hit": [k["key"] for k in self.known_hits],
+            "reduced_bounds": self.reduced, "not_covered": self.not_covered,
             "technique": technique or "bounded symbolic execution of the real Go SSA (gose) with SMT (z3) deciding every branch feasibility and every assertion",
         }
         if self.level == "translation_validation":
